@@ -17,7 +17,7 @@ use std::sync::Arc;
 const PATHS: &[&str] = &["x.py", "a/x.py", "b/x.py", "b/b/x.py", "a/b/y.py", "sp ace/x.py", "d.d/x.py", "b/b/b/z.py", "hid/x.py", "pkg.py/x.py"];
 const HIDDEN: &[&str] = &[".hid/x.py", ".h.py", "a/.deep/x.py"];
 const GITIGNORED: &[&str] = &["ign/x.py", "a/ign/y.py"];
-const GLOBS: &[&str] = &["*.py", "a/**", "**/x.py", "b/x.py", "**", "b/*", "**/b/**", ".hid/**", "hid/*", "**/b", "a/b"];
+const GLOBS: &[&str] = &["*.py", "a/**", "**/x.py", "b/x.py", "**", "b/*", "**/b/**", ".hid/**", "hid/*", "**/b", "a/b", "a"];
 /// The first `LIB_GLOBS` globs form the alphabet of positional and ignore globs; the others
 /// (`**/name` and an exact path that equal a *directory's* own path, not its files') are used as
 /// --ignore globs in the CLI phase, where the real directory walk runs.
@@ -235,7 +235,7 @@ fn check_cli(cfg: &Cfg, c: &CliCase, sink: &Sink) {
 }
 
 pub fn run(cfg: &Cfg, sink: &Arc<Sink>) -> Report {
-    let mut report = Report::new("cases = directory trees over paths {x.py, a/x.py, b/x.py, b/b/x.py, a/b/y.py, 'sp ace/x.py', d.d/x.py, b/b/b/z.py, hid/x.py, pkg.py/x.py (a directory named like a source file)} (every file holds one block named after its path) × 0..2 positional globs × 0..2 --ignore globs from {*.py, a/**, **/x.py, b/x.py, **, b/*, **/b/**, .hid/**, hid/*} (CLI phase also --ignore **/b and a/b, which equal a directory's own path) × {no diff, diff naming any subset of ≤2 files}; library phase over an in-memory tree (all trees of ≤2, thorough ≤3, paths); CLI phase in real directories with hidden files, a .gitignore'd directory, a symbolic link to a file and one to a directory named like a source file, real `git diff` output (plain edits and rename+edit with -M) and every directory of the tree as current directory; oracle: the set of files with listed blocks equals ((walk ∖ hidden ∖ git-ignored) ∩ globs ∪ files named in the diff) ∖ --ignore, with `**` implied when run without globs and without diff; non-trivial = every case");
+    let mut report = Report::new("cases = directory trees over paths {x.py, a/x.py, b/x.py, b/b/x.py, a/b/y.py, 'sp ace/x.py', d.d/x.py, b/b/b/z.py, hid/x.py, pkg.py/x.py (a directory named like a source file)} (every file holds one block named after its path) × 0..2 positional globs × 0..2 --ignore globs from {*.py, a/**, **/x.py, b/x.py, **, b/*, **/b/**, .hid/**, hid/*} (CLI phase also --ignore **/b and a/b, which equal a directory's own path, and the positional argument `a`, the plain name of a directory, which is a glob matching no file) × {no diff, diff naming any subset of ≤2 files}; library phase over an in-memory tree (all trees of ≤2, thorough ≤3, paths); CLI phase in real directories with hidden files, a .gitignore'd directory, a symbolic link to a file and one to a directory named like a source file, real `git diff` output (plain edits and rename+edit with -M) and every directory of the tree as current directory; oracle: the set of files with listed blocks equals ((walk ∖ hidden ∖ git-ignored) ∩ globs ∪ files named in the diff) ∖ --ignore, with `**` implied when run without globs and without diff; non-trivial = every case");
     report.assume("globset decides whether a glob matches a path (same crate, default options, as the documented forms are defined by it)");
     let thorough = cfg.tier == Tier::Thorough;
     // Library phase.
@@ -274,7 +274,7 @@ pub fn run(cfg: &Cfg, sink: &Arc<Sink>) -> Report {
     if thorough {
         trees.extend(subsets_up_to(all.len(), 3).into_iter().filter(|t| t.len() == 3));
     }
-    let cli_globs: Vec<Vec<usize>> = if thorough { glob_sets.clone() } else { subsets_up_to(LIB_GLOBS, 1).into_iter().chain([vec![1, 3], vec![2, 5], vec![0, 6]]).collect() };
+    let cli_globs: Vec<Vec<usize>> = if thorough { glob_sets.iter().cloned().chain([vec![11]]).collect() } else { subsets_up_to(LIB_GLOBS, 1).into_iter().chain([vec![1, 3], vec![2, 5], vec![0, 6], vec![11]]).collect() };
     let cli_ignores: Vec<Vec<usize>> = vec![vec![], vec![3], vec![2], vec![6], vec![1, 5], vec![7], vec![8], vec![9], vec![10]];
     let mut cases = Vec::new();
     for tree in &trees {
